@@ -277,7 +277,10 @@ Definition creates_console_frame (o : outcome) : bool := match o with OConsole _
    recomputed from the state), the frame id it names (frm, parsed) and the ids the traceback would
    register if the wrapped application raised while handling it. *)
 Record dstate := { d_count : N; d_frames : list Z }.
-Record areq := { ar_atoms : atoms; ar_frm : option Z; ar_new_frames : list Z }.
+(* ar_new_ids: the keys debug_application stores are id(frame) of live objects - addresses, never 0
+   (the only store sites into self.frames are pinned by the translator: frames[id(frame)] in
+   debug_application, frames[0] in display_console); so they are positive numbers here *)
+Record areq := { ar_atoms : atoms; ar_frm : option Z; ar_new_ids : list positive }.
 
 Definition with_frame (r : atoms) (b : bool) : atoms :=
   {| a_dbg := a_dbg r; a_cmd := a_cmd r; a_arg := a_arg r; a_secret_ok := a_secret_ok r; a_frame := b;
@@ -295,7 +298,7 @@ Definition astep (s : dstate) (q : areq) : outcome * dstate :=
   let '(o, k) := call (atoms_in s q) (lock_test (d_count s)) in
   (o, {| d_count := apply_cnt k (d_count s);
          d_frames := if creates_console_frame o then 0%Z :: d_frames s
-                     else match o with OApp => ar_new_frames q ++ d_frames s | _ => d_frames s end |}).
+                     else match o with OApp => map Zpos (ar_new_ids q) ++ d_frames s | _ => d_frames s end |}).
 
 Definition arun (s : dstate) (h : list areq) : dstate := fold_left (fun s q => snd (astep s q)) h s.
 
